@@ -37,7 +37,7 @@ Proof.
   destruct (check_limits L s v) eqn:Ec; [|discriminate].
   injection H as <- <-. unfold in_base in Eb. apply andb_prop in Eb. destruct Eb as (B1 & B2).
   apply Z.leb_le in B1, B2. destruct (check_limits_sound L s v Ec) as (H1 & H2 & H3 & _).
-  split; [|split; reflexivity]. unfold within_all. repeat split; auto; lia.
+  split; [|split; reflexivity]. unfold within_all. split; [lia|]. split; [exact H1|]. split; [exact H2|exact H3].
 Qed.
 
 Lemma write_refused_unchanged : forall L s v s' c, step L s (WriteA v) = (s', RErr c) -> s' = s /\ c = 1%nat.
